@@ -47,6 +47,8 @@ def scenarios(tier, pid):
        "--watch", "10", "--preempt", 3 if T else 2)
     sc("add_while_other_adds_and_delivery", ("C12",), "--consumer", "p,p", "--others",
        "a12,a14;a14,a12;D10", "--watch", "10", "--preempt", 1)
+    sc("raw_concurrent_add_then_delivery", ("C10", "C12"), "--raw", "--consumer", "p,p", "--others",
+       "a12,D12;a12", "--watch", "10", "--preempt", 1)
     sc("burst_same_signal", ("C10",), "--consumer", "p,p,p", "--others", "D10,D10,D10;D10",
        "--preempt", 2 if T else 1)
     sc("raw_records_two_producers", ("C10", "C09") if T else ("C10",), "--raw", "--consumer", "p,p,p",
@@ -223,4 +225,4 @@ def _flags(chk, name):
     except Exception:
         return ""
     m = re.findall(r"/\\ viol = (\{[^}]*\})", out)
-    return m[-1] if m else ""
+    return " ".join(m[-1].split()) if m else ""
